@@ -19,6 +19,7 @@ from __future__ import annotations
 import ast
 from typing import Any, Dict, List, Optional, Set, Tuple
 
+from engine.srcmatch import U
 from engine.cfg import build_cfg, calls_in_stmt
 from engine.model import AnalysisError, Program, dotted, walk_no_nested
 
@@ -56,7 +57,7 @@ def run(ctx: Any, prog: Program) -> None:
             if isinstance(n, ast.Attribute) and n.attr == 'filename' and dotted(n.value) == 'self':
                 par = core.parents.get(n)
                 ok = False
-                how = ast.unparse(par)[:60] if par is not None else ''
+                how = U(par)[:60] if par is not None else ''
                 if isinstance(par, ast.Assign) and n in par.targets and name == '__init__':
                     ok = True
                 elif isinstance(par, ast.Attribute) and par.attr in ('parent', 'with_name', 'name', 'stem', 'suffix'):
@@ -102,8 +103,8 @@ def run(ctx: Any, prog: Program) -> None:
                         continue
                     inner = [x for x in ast.walk(c) if isinstance(x, ast.Call) and x is not c]
                     n_after += 1
-                    ctx.check('C12.W3', broad_try(c), core, c, f'`{ast.unparse(c)[:60]}` runs after the temp file exists; if it raises, __enter__ fails, __exit__ is never called and the '
-                              'temp file is left behind (only a try with a broad handler protects it)', func='AtomicWriter.__enter__', text=f'call after make_tempfile: {ast.unparse(c.func)}')
+                    ctx.check('C12.W3', broad_try(c), core, c, f'`{U(c)[:60]}` runs after the temp file exists; if it raises, __enter__ fails, __exit__ is never called and the '
+                              'temp file is left behind (only a try with a broad handler protects it)', func='AtomicWriter.__enter__', text=f'call after make_tempfile: {U(c.func)}')
         ctx.check('C12.W3', True, core, en, '__enter__ does nothing fallible between creating the temp file and returning it', func='AtomicWriter.__enter__', text='enter after make_tempfile')
     # ---- W2 / W3 on the CFG of __exit__ ----------------------------------------------------------------------
     ex = aw.get('__exit__')
@@ -114,7 +115,7 @@ def run(ctx: Any, prog: Program) -> None:
     def has_call(node: Any, attr: str, recv_contains: Optional[str] = None) -> bool:
         for c in calls_in_stmt(node.stmt):
             if isinstance(c.func, ast.Attribute) and c.func.attr == attr:
-                if recv_contains is None or recv_contains in ast.unparse(c.func.value):
+                if recv_contains is None or recv_contains in U(c.func.value):
                     return True
         return False
     replace_nodes = [n for n in g.nodes if n.kind in ('stmt', 'return') and has_call(n, 'replace', '_temp_name')]
@@ -124,8 +125,8 @@ def run(ctx: Any, prog: Program) -> None:
     # destination in place: a fault or kill in the middle leaves neither the old nor the new contents
     for c in ast.walk(ex):
         if isinstance(c, ast.Call) and (dotted(c.func) or '').split('.')[-1] in ('move', 'copy', 'copy2', 'copyfile', 'copyfileobj', 'copytree') and 'shutil' in (dotted(c.func) or '') \
-                and any('filename' in ast.unparse(a) for a in c.args):
-            ctx.check('C12.W2', False, core, c, f'`{ast.unparse(c)[:70]}` commits with {dotted(c.func)}(), which silently falls back to copying over the destination when the rename fails (and moves INTO an existing directory): '
+                and any('filename' in U(a) for a in c.args):
+            ctx.check('C12.W2', False, core, c, f'`{U(c)[:70]}` commits with {dotted(c.func)}(), which silently falls back to copying over the destination when the rename fails (and moves INTO an existing directory): '
                       'the destination is then rewritten in place instead of being replaced atomically', func='AtomicWriter.__exit__', text='commit is an atomic rename')
     # who may commit: __exit__ with a None exception type is the with-statement saying "the body finished".  A finalizer that gets there
     # (directly or through close()) commits a half-written temp file when an abandoned writer is garbage collected
@@ -156,11 +157,11 @@ def run(ctx: Any, prog: Program) -> None:
                     catches_io = any(nm in (None, 'OSError', 'IOError', 'Exception', 'BaseException', 'EnvironmentError') for nm in names_)
                     reraises = bool(h.body) and isinstance(h.body[-1], ast.Raise)
                     if catches_io:
-                        ctx.check('C12.W2', reraises, core, h, f'the error of closing the temp file (its final flush) is caught by `except {ast.unparse(h.type) if h.type else ""}:` and not re-raised: __exit__ then sees no exception and '
+                        ctx.check('C12.W2', reraises, core, h, f'the error of closing the temp file (its final flush) is caught by `except {U(h.type) if h.type else ""}:` and not re-raised: __exit__ then sees no exception and '
                                   'renames a truncated temp file over the destination (a second close() of an already closed file object is a silent no-op)', func='AtomicWriter.__exit__', text='a failed close is not swallowed')
             child_, cur_ = cur_, core.parents.get(cur_)
     # W2a: on every path to replace, either the `self.temp is not None` test was false or a close node was passed
-    temp_tests = [n for n in g.nodes if n.kind == 'test' and 'self.temp is not None' in ast.unparse(n.stmt)]
+    temp_tests = [n for n in g.nodes if n.kind == 'test' and 'self.temp is not None' in U(n.stmt)]
     removed = {n.id for n in close_nodes}
     removed_edges = {(t.id, m, lab) for t in temp_tests for m, lab in g.succ[t.id] if lab == 'false'}
     p = g.find_path_flags(g.entry, {n.id for n in replace_nodes}, removed_nodes=removed, removed_edges=removed_edges)
@@ -190,7 +191,7 @@ def run(ctx: Any, prog: Program) -> None:
         if isinstance(t, ast.Name) and t.id == 'exc_type':
             return True
         return None
-    exc_tests = [n for n in g.nodes if n.kind == 'test' and 'exc_type' in ast.unparse(n.stmt)]
+    exc_tests = [n for n in g.nodes if n.kind == 'test' and 'exc_type' in U(n.stmt)]
     if not exc_tests:
         raise AnalysisError('AtomicWriter.__exit__: no test of exc_type found')
     bad_edges = set()
@@ -205,7 +206,7 @@ def run(ctx: Any, prog: Program) -> None:
     ctx.check('C12.W2', p is None, core, replace_nodes[0].stmt, 'replace() is reachable although the body raised (exc_type is not None)' + (': ' + g.describe(p) if p else ''),
               func='AtomicWriter.__exit__', text='replace only on success')
     # W3: remove unlink nodes, the success edge out of replace, and the `_temp_name is None` early exit; nothing else may reach EXIT/RAISE
-    none_tests = [n for n in g.nodes if n.kind == 'test' and '_temp_name is None' in ast.unparse(n.stmt)]
+    none_tests = [n for n in g.nodes if n.kind == 'test' and '_temp_name is None' in U(n.stmt)]
     removed_edges = set()
     for t in none_tests:
         for m, lab in g.succ[t.id]:
@@ -288,7 +289,7 @@ def run(ctx: Any, prog: Program) -> None:
                     mode = k.value
             modes = resolve_modes(fnx, mode)
             if modes is None:
-                raise AnalysisError(f'AtomicWriter: cannot resolve the mode of `{ast.unparse(c)[:60]}`')
+                raise AnalysisError(f'AtomicWriter: cannot resolve the mode of `{U(c)[:60]}`')
             open_sites.append((fnx, c, modes))
     if not open_sites:
         raise AnalysisError('make_tempfile: no open() call found (directly or in a helper)')
@@ -296,7 +297,7 @@ def run(ctx: Any, prog: Program) -> None:
         bad = [m for m in modes if 'x' not in m or 'w' in m or 'a' in m or '+' in m and 'x' not in m]
         ctx.check('C12.W4', not bad, core, c, f'temp file may be opened with mode(s) {bad or modes}: exclusive creation ("x") is what keeps concurrent writers in one directory '
                   'from clobbering each other\'s temp files (a remembered name may meanwhile belong to another writer)', func=f'AtomicWriter.{getattr(fnx, "name", "?")}',
-                  text=f'exclusive open {ast.unparse(c)[:50]}')
+                  text=f'exclusive open {U(c)[:50]}')
         tgt = dotted(c.func.value) if isinstance(c.func, ast.Attribute) else (dotted(c.args[0]) if c.args else None)
         # aliases of the temp path: `name = self._temp_name = ...` / `name = self._temp_name`
         aliases = {'self._temp_name'}
@@ -308,7 +309,7 @@ def run(ctx: Any, prog: Program) -> None:
         if tgt in aliases:
             ctx.check('C12.W4', True, core, c, 'only the temp path may be opened', func=f'AtomicWriter.{getattr(fnx, "name", "?")}', text='open target is the temp path')
         elif tgt in ('self.filename', 'self._filename'):
-            ctx.check('C12.W4', False, core, c, f'`{ast.unparse(c)[:60]}` opens the destination itself: the old content is destroyed before the new one is complete', func=f'AtomicWriter.{getattr(fnx, "name", "?")}', text='open target is the temp path')
+            ctx.check('C12.W4', False, core, c, f'`{U(c)[:60]}` opens the destination itself: the old content is destroyed before the new one is complete', func=f'AtomicWriter.{getattr(fnx, "name", "?")}', text='open target is the temp path')
         else:
             ctx.shape('C12.W4', False, core, c, f'open target `{tgt}` not recognised', func=f'AtomicWriter.{getattr(fnx, "name", "?")}', text='open target is the temp path')
     # the try statements that contain the open() of the temp file (a read-only probe in its own try is a different matter)
@@ -316,7 +317,7 @@ def run(ctx: Any, prog: Program) -> None:
     ok = len(tries) == 1 and len(tries[0].handlers) == 1 and dotted(tries[0].handlers[0].type) == 'FileExistsError'
     ctx.check('C12.W4', ok, core, tries[0] if tries else mt, 'the name search may only continue on FileExistsError (any other error must propagate)', func='AtomicWriter.make_tempfile', text='retry only on FileExistsError')
     first_if = [n for n in mt.body if isinstance(n, ast.If)]
-    ok = bool(first_if) and 'self.temp is not None' in ast.unparse(first_if[0].test) and any(has for has in ['close' in ast.unparse(first_if[0]) and 'unlink' in ast.unparse(first_if[0])])
+    ok = bool(first_if) and 'self.temp is not None' in U(first_if[0].test) and any(has for has in ['close' in U(first_if[0]) and 'unlink' in U(first_if[0])])
     ctx.shape('C12.W4', ok, core, first_if[0] if first_if else mt, 're-entering the writer must close and unlink the previous temp file', func='AtomicWriter.make_tempfile', text='re-entry cleanup')
     # ---- W5 ----------------------------------------------------------------------------------------------
     save = bsp.func('BSP.save')
@@ -350,7 +351,7 @@ def run(ctx: Any, prog: Program) -> None:
                     withs.append((n, i, cands))
     for wn, wi, wc in withs:
         for c in wc:
-            ctx.check('C12.W5', _is_aw(c), bsp, c, f'BSP.save opens an output with `{ast.unparse(c)[:60]}`; the destination must only be written through AtomicWriter', func='BSP.save', text='output context manager')
+            ctx.check('C12.W5', _is_aw(c), bsp, c, f'BSP.save opens an output with `{U(c)[:60]}`; the destination must only be written through AtomicWriter', func='BSP.save', text='output context manager')
     main = [t for t in withs if any(_is_aw(c) for c in t[2])]
     if len(main) != 1:
         raise AnalysisError('BSP.save: expected exactly one `with AtomicWriter(...)` block')
@@ -371,7 +372,7 @@ def run(ctx: Any, prog: Program) -> None:
             inside = any(n is x for x in ast.walk(w))
             buffers = {a.targets[0].id for a in ast.walk(save) if isinstance(a, ast.Assign) and isinstance(a.value, ast.Call) and dotted(a.value.func) == 'BytesIO' and isinstance(a.targets[0], ast.Name)}
             ok = (inside and recv in wrappers) or recv in buffers
-            ctx.check('C12.W5', ok, bsp, n, f'`{ast.unparse(n)[:60]}` writes to `{recv}`, which is not the AtomicWriter handle (or an in-memory buffer)', func='BSP.save', text=f'write via {recv}')
+            ctx.check('C12.W5', ok, bsp, n, f'`{U(n)[:60]}` writes to `{recv}`, which is not the AtomicWriter handle (or an in-memory buffer)', func='BSP.save', text=f'write via {recv}')
         if isinstance(n, ast.Call) and _is_open(n) and not any(n is c for c in cands):
             ctx.check('C12.W5', False, bsp, n, 'BSP.save opens a file itself; all output must go through AtomicWriter', func='BSP.save', text='open in save')
     # DeferredWrites writes through the file object it was given
